@@ -169,6 +169,8 @@ def run():
             cases.append({"block": b, "opts": o, "_group": g, "kind": "ternary-blocks", "_cpu": 90})
         for b in c06.repeat_blocks(random.Random(common.seed() + 737), 10 if quick else 80):
             cases.append({"block": b, "opts": o, "_group": g, "kind": "repeated-value-blocks", "_cpu": 90})
+        for b in c06.store_pop_blocks(random.Random(common.seed() + 747), 10 if quick else 30):
+            cases.append({"block": b, "opts": o, "_group": g, "kind": "store-pop-blocks", "_cpu": 90})
         rr = random.Random(common.seed() + 77)
         for i in range(n_rand):
             b, k = gen.gen_block(rr, "short")
